@@ -60,7 +60,8 @@ def parseThreads (s : String) : Option (List (List Op)) :=
   if s = "-" then some [] else (s.splitOn "/").mapM parseOps
 
 def parseOrder (s : String) : Option (Option (List Nat)) :=
-  if s = "-" then some none else ((s.splitOn ".").mapM natOf?).map some
+  -- `d<ms>[s]`: a scripted deadline recorded for the replay (no linearisation)
+  if s = "-" || s.startsWith "d" then some none else ((s.splitOn ".").mapM natOf?).map some
 
 def field (key w : String) : Option String :=
   if w.startsWith (key ++ "=") then some (w.drop (key.length + 1)).toString else none
